@@ -25,7 +25,10 @@
 //   -1 (LENGTH_UNLIMITED), 1, 3} (instances / samples per instance unlimited).  Separately the resource limit
 //   (ResourceLimits in {absent, -1, 3, 35}): History in {KeepAll, KeepLast(32),
 //   KeepLast(33), KeepLast(40)}, n in {31,32,33,34,40}, no reader / best-effort / reliable reader with
-//   selected ACKNACK bases.
+//   selected ACKNACK bases.  Separately source timestamps (xc_hist_source_timestamps): History in {default,
+//   KeepLast(2), KeepAll}, up to 4 samples in two rounds, every sample written with WriteOptions carrying
+//   no source timestamp / the same one as the previous stamped write / one a second earlier (all 3^k
+//   patterns), no reader / best-effort / reliable reader with no ACKNACK or base 1..=n+1.
 #[cfg(test)]
 mod verif_xc_writer_history {
   use std::{
@@ -120,6 +123,7 @@ mod verif_xc_writer_history {
   struct Case {
     history: Hist,
     limits: Rl,
+    stamps: Vec<St>, // source timestamps of the writes (empty: none)
     n: i64,
     readers: Vec<Rd>,
     more: i64,
@@ -206,13 +210,56 @@ mod verif_xc_writer_history {
     }
     DDSData::new(SerializedPayload::new(RepresentationIdentifier::CDR_LE, v))
   }
-  // sample 2 is addressed to one particular reader, all others to everybody
-  fn options(i: i64) -> WriteOptions {
-    if i == 2 {
-      WriteOptionsBuilder::new().to_single_reader(reader_guid(1)).build()
-    } else {
-      WriteOptions::default()
+  // the application-supplied source timestamp of a write: none, the same as the previous stamped write's
+  // (the first one: a fixed instant), or one second earlier than that
+  #[derive(Clone, Copy, Debug, PartialEq, Eq)]
+  enum St {
+    NoStamp,
+    Same,
+    Earlier,
+  }
+  // stamps[i-1] describes sample i; samples beyond the list carry no source timestamp
+  fn source_timestamp(stamps: &[St], i: i64) -> Option<Timestamp> {
+    let mut cur: u64 = 1_000_000u64 << 32; // Timestamp ticks: 10^6 s after the epoch
+    let mut out = None;
+    for st in stamps.iter().take(i as usize) {
+      out = match st {
+        St::NoStamp => None,
+        St::Same => Some(cur),
+        St::Earlier => {
+          cur -= 1u64 << 32;
+          Some(cur)
+        }
+      };
     }
+    if (i as usize) > stamps.len() { None } else { out.map(Timestamp::from_ticks) }
+  }
+  fn stamp_patterns(len: usize) -> Vec<Vec<St>> {
+    let mut v: Vec<Vec<St>> = vec![vec![]];
+    for _ in 0..len {
+      v = v
+        .into_iter()
+        .flat_map(|p| {
+          [St::NoStamp, St::Same, St::Earlier].into_iter().map(move |s| {
+            let mut q = p.clone();
+            q.push(s);
+            q
+          })
+        })
+        .collect();
+    }
+    v
+  }
+  // sample 2 is addressed to one particular reader, all others to everybody
+  fn options(stamps: &[St], i: i64) -> WriteOptions {
+    let mut b = WriteOptionsBuilder::new();
+    if i == 2 {
+      b = b.to_single_reader(reader_guid(1));
+    }
+    if let Some(ts) = source_timestamp(stamps, i) {
+      b = b.source_timestamp(ts);
+    }
+    b.build()
   }
   fn acknack(reader: GUID, writer: GUID, base: i64) -> AckSubmessage {
     AckSubmessage::AckNack(AckNack {
@@ -223,17 +270,20 @@ mod verif_xc_writer_history {
     })
   }
 
-  // writes sample i through the writer's own insertion path.  The history is keyed by the wall clock
+  // writes sample i through the writer's own insertion path.  The history is keyed by a wall clock
   // reading taken inside (assumption valid.hist.clock: readings strictly increase), so wait for the
-  // clock to tick first.  Returns false if the clock stepped back nevertheless (case is then redone).
-  fn write(w: &mut Writer, i: i64, last_ts: &mut Timestamp) -> bool {
-    while Timestamp::now() <= *last_ts {
+  // clock to tick first and bracket the call with two readings.  Returns false if the wall clock was
+  // seen stepping back (the case is then redone) - whatever key the writer actually used.
+  fn write(w: &mut Writer, stamps: &[St], i: i64, last_wall: &mut Timestamp) -> bool {
+    let mut before = Timestamp::now();
+    while before <= *last_wall {
       std::hint::spin_loop();
+      before = Timestamp::now();
     }
-    let ts = w.insert_to_history_buffer(payload(i), options(i), sn(i));
-    let ok = ts > *last_ts;
-    *last_ts = ts;
-    ok
+    w.insert_to_history_buffer(payload(i), options(stamps, i), sn(i));
+    let after = Timestamp::now();
+    *last_wall = std::cmp::max(after, before);
+    after >= before
   }
 
   fn retained(w: &Writer) -> BTreeSet<i64> {
@@ -352,9 +402,9 @@ mod verif_xc_writer_history {
             c, round, s, cc.sequence_number, s, after
           );
           assert!(
-            cc.sequence_number == sn(s) && cc.data_value == payload(s) && cc.write_options == options(s),
+            cc.sequence_number == sn(s) && cc.data_value == payload(s) && cc.write_options == options(&c.stamps, s),
             "XC-WITNESS label=hist.get {:?} round={}: get_by_sn({}) returned sample {:?} with {:?} / {:?}, written for {} were {:?} / {:?}",
-            c, round, s, cc.sequence_number, cc.data_value, cc.write_options, s, payload(s), options(s)
+            c, round, s, cc.sequence_number, cc.data_value, cc.write_options, s, payload(s), options(&c.stamps, s)
           );
         }
       }
@@ -367,7 +417,7 @@ mod verif_xc_writer_history {
     let mut last_ts = Timestamp::ZERO;
     let mut model: Vec<(GUID, Rd)> = vec![];
     for i in 1..=c.n {
-      if !write(&mut w, i, &mut last_ts) {
+      if !write(&mut w, &c.stamps, i, &mut last_ts) {
         return false;
       }
     }
@@ -378,7 +428,7 @@ mod verif_xc_writer_history {
 
     let written = c.n + c.more;
     for i in c.n + 1..=written {
-      if !write(&mut w, i, &mut last_ts) {
+      if !write(&mut w, &c.stamps, i, &mut last_ts) {
         return false;
       }
     }
@@ -457,7 +507,7 @@ mod verif_xc_writer_history {
       for readers in &sets {
         for more in 0..=2 {
           for ev in events(!readers.is_empty()) {
-            let c = Case { history, limits, n, readers: readers.clone(), more, ev };
+            let c = Case { history, limits, stamps: vec![], n, readers: readers.clone(), more, ev };
             run(&h, &c);
             cases += 1;
           }
@@ -516,7 +566,7 @@ mod verif_xc_writer_history {
             if readers.is_empty() && ev != Ev::Nothing {
               continue;
             }
-            let c = Case { history, limits, n, readers: readers.clone(), more, ev };
+            let c = Case { history, limits, stamps: vec![], n, readers: readers.clone(), more, ev };
             run(&h, &c);
             cases += 1;
           }
@@ -524,5 +574,40 @@ mod verif_xc_writer_history {
       }
     }
     assert!(cases > 8_000, "vacuity guard: only {} scenarios enumerated", cases);
+  }
+
+  // application-supplied source timestamps must not matter for what the history retains and returns
+  #[test]
+  fn xc_hist_source_timestamps() {
+    let h = Harness::new();
+    let mut cases = 0u64;
+    for history in [Hist::Default, Hist::KeepLast(2), Hist::KeepAll] {
+      for n in 0..=4i64 {
+        for more in 0..=std::cmp::min(2, 4 - n) {
+          let total = n + more;
+          let mut sets: Vec<Vec<Rd>> = vec![
+            vec![],
+            vec![Rd { reliable: false, ack: None }],
+            vec![Rd { reliable: true, ack: None }],
+          ];
+          for b in 1..=n + 1 {
+            sets.push(vec![Rd { reliable: true, ack: Some(b) }]);
+          }
+          for stamps in stamp_patterns(total as usize) {
+            for readers in &sets {
+              for ev in [Ev::Nothing, Ev::Reader0Ack(total + 1)] {
+                if readers.is_empty() && ev != Ev::Nothing {
+                  continue;
+                }
+                let c = Case { history, limits: Rl::Absent, stamps: stamps.clone(), n, readers: readers.clone(), more, ev };
+                run(&h, &c);
+                cases += 1;
+              }
+            }
+          }
+        }
+      }
+    }
+    assert!(cases > 10_000, "vacuity guard: only {} scenarios enumerated", cases);
   }
 }
